@@ -168,6 +168,18 @@ func (d *Document) AddListItem(text string, config *ListConfig) *Paragraph {
 		}
 	}
 
+	// 抽象编号只定义了 0-8 级：超出范围的缩进级别收敛到最近的有效级别，
+	// 否则段落会引用一个没有定义的级别（不修改调用者传入的配置）
+	if config.IndentLevel < 0 || config.IndentLevel > 8 {
+		clamped := *config
+		if clamped.IndentLevel < 0 {
+			clamped.IndentLevel = 0
+		} else {
+			clamped.IndentLevel = 8
+		}
+		config = &clamped
+	}
+
 	// 确保编号管理器已初始化
 	d.ensureNumberingInitialized()
 
@@ -280,7 +292,9 @@ func (d *Document) getOrCreateNumbering(config *ListConfig) string {
 	manager := getNumberingManager()
 
 	// 生成抽象编号键
-	abstractKey := fmt.Sprintf("%s_%s_%d", config.Type, config.BulletSymbol, config.IndentLevel)
+	// 键必须包含决定级别定义的全部配置（类型、符号、起始编号）：
+	// 缺少起始编号时，起始值不同的列表会复用第一个列表的定义
+	abstractKey := fmt.Sprintf("%s_%s_%d_%d", config.Type, config.BulletSymbol, config.IndentLevel, config.StartNumber)
 
 	// 检查是否已存在抽象编号
 	var abstractNum *AbstractNum
